@@ -393,9 +393,14 @@ int SQLITE3::Handle::fetchall(struct sqlite3_stmt * stmt, bloc::Collection ** rs
           decl[i] = bloc::Type::NUMERIC;
           break;
         case SQLITE_TEXT:
-          t.push_back(bloc::Value(new bloc::Literal((const char*) sqlite3_column_text(stmt, i))));
+        {
+          /* the text could embed zero: use its length */
+          const char * text = (const char*) sqlite3_column_text(stmt, i);
+          int sz = sqlite3_column_bytes(stmt, i);
+          t.push_back(bloc::Value(new bloc::Literal(text, sz)));
           decl[i] = bloc::Type::LITERAL;
           break;
+        }
         case SQLITE_BLOB:
         {
           int sz = sqlite3_column_bytes(stmt, i);
@@ -702,8 +707,13 @@ int SQLITE3::Handle::fetch(bloc::Tuple ** row)
         t.push_back(bloc::Value(bloc::Numeric(sqlite3_column_double(_stmt, i))));
         break;
       case SQLITE_TEXT:
-        t.push_back(bloc::Value(new bloc::Literal((const char*) sqlite3_column_text(_stmt, i))));
+      {
+        /* the text could embed zero: use its length */
+        const char * text = (const char*) sqlite3_column_text(_stmt, i);
+        int sz = sqlite3_column_bytes(_stmt, i);
+        t.push_back(bloc::Value(new bloc::Literal(text, sz)));
         break;
+      }
       case SQLITE_BLOB:
       {
         int sz = sqlite3_column_bytes(_stmt, i);
